@@ -59,6 +59,10 @@ CHECKS['C18'] = dict(engine='histmc', category='model_checking', section='3/C18'
    technique='explicit enumeration of every element stream up to a length bound executed on the real GripServer.BulkAdd and, element by element, on the real AddVertex/AddEdge handlers over an identical store; final states compared through the full observation battery',
    text='All streams of length <=3 (quick, 1111) / <=4 (thorough, 11111) over 10 element kinds (valid vertices in two graphs, relabel of an existing id, invalid vertex, valid/invalid edge, edge without id, element for a missing graph, element for a schema graph) go through GripServer.BulkAdd with a stub stream; the resulting store must be observably identical to the store obtained by sending the same elements one at a time, InsertCount/ErrorCount must equal the numbers accepted/rejected one by one; the same streams run behind accounts.BulkWriteFilter with a policy forbidding one graph. util.StreamBatch is enumerated over all sequences up to 4 (5) of 5 element kinds x batch sizes 1,2,3 and uniform streams around the literal sizes 50/100/200 against recording add functions (order, content, batch size, error-ness).',
    note='Differential against the implementation\'s own one-by-one path (the property\'s definition), so C03\'s sequential defects are not charged again. Goroutine interleavings inside BulkAdd are not controlled here (C17 explores them).')
+CHECKS['C11'] = dict(engine='histmc', category='model_checking', section='3/C11',
+   technique='explicit-state breadth-first search over submit/delete/restart histories on the real GripServer job handlers with FSJobStorage, plus bounded-exhaustive enumeration of result types x sizes and of all split points of all well-typed programs for resume',
+   text='A1: nine traversal families (vertices, edges, count, selection, render, path, aggregation, unloaded elements, marks) x graph sizes 0,1,3,4,5,9,40,41,45 (serializer worker pool 4, buffers 40) are submitted, awaited and read back: rows and Status.Count must equal the direct run. A2: every split Q1.Q2 of every well-typed order-independent program of length <=3 (4 thorough) over the core alphabet on two fixtures: submit Q1, ResumeJob with Q2 must equal running Q directly. B: every history of depth <=3 (4) over submit (5 queries x 2 graphs), delete and restart; after every step ListJobs, SearchJobs for 5 probe queries, GetJob and ViewJob of every job are compared with a list model (prefix rule, >=2 steps, survival across restart, deletion).',
+   note='Job storage is injected into GripServer by the verif-tagged overlay file engines/hooks/server_export_verif.go; asynchronous completion is awaited by polling (the race itself belongs to C17).')
 NA_REASON = 'check not built yet in this session (planned in DESIGN.md section 3); nothing is claimed for it'
 
 m = {
@@ -66,7 +70,7 @@ m = {
  'setup_cmd': './setup.sh',
  'hooks': {
    'guard': 'verif',
-   'enable': 'go build -tags verif -overlay .work/overlay.json (overlay generated from the current /repo files by build.sh; no instrumentation is committed to /repo)',
+   'enable': 'go build -tags verif -overlay .work/overlay.json (build.sh generates the overlay from engines/hooks/*_export_verif.go and, for the scheduler checks, from the current /repo sources rewritten by tools/instr; nothing is committed to /repo)',
    'baseline_off_cmd': './baseline.sh',
    'source_commits': [],
    'add_only': True,
